@@ -136,6 +136,28 @@ def run(res, tier, seed, driver_ok):
                     bad('fk-lengths:%s:%d' % (mode, fk_mode), 'lengths reported after FK are not the requested ones (1e-3 h)', i2, e_len)
                 if not v2:
                     bad('fk-invalid:%s:%d' % (mode, fk_mode), 'FK of in-workspace lengths reported invalid', i2, None)
+        # lengths that differ from the neutral ones in ONE actuator only (each of the six in turn): every residual of the FK iteration but one starts at zero
+        try:
+            with contextlib.redirect_stdout(io.StringIO()):
+                sp.IK(tm(Tb @ sph.T6([0, 0, h, 0, 0, 0])), tm(Tb), protect=True)
+                L0 = np.array(sp.getLens(), dtype=float).reshape(-1).copy()
+            for k_ in range(6):
+                L1 = L0.copy(); L1[k_] = min(sp.leg_ext_max - 1e-3 * h, L0[k_] + 0.06 * h)
+                for fk_mode in (1, 0):
+                    with contextlib.redirect_stdout(io.StringIO()):
+                        sp.IK(tm(Tb @ sph.T6([0, 0, h, 0, 0, 0])), tm(Tb), protect=True)
+                        top1, v1 = sp.FK(L1.copy(), fk_mode=fk_mode)
+                        got1 = np.array(sp.getLens(), dtype=float).reshape(-1)
+                        ref1 = sph.lengths_ref(*sph.local_joints(sp), sp.getBottomT().gTM(), top1.gTM())
+                    stats['single_actuator_fk'] = stats.get('single_actuator_fk', 0) + 1
+                    if not v1:
+                        continue            # not accepted without corrective action: outside the clause
+                    e1 = max(float(np.abs(got1 - L1).max()), float(np.abs(ref1 - L1).max())) / h
+                    if not e1 <= 1e-3:
+                        bad('fk-lengths:single-actuator:%d' % fk_mode, 'after FK of lengths that differ from neutral in one actuator only, the pose returned does not have the requested lengths (1e-3 h)',
+                            {'geometry': g, 'mode': mode, 'base6': base6 if 'base6' in dir() else None, 'actuator': k_, 'lengths': L1.tolist(), 'fk_mode': fk_mode}, e1)
+        except Exception as e:
+            bad('raises:FK:%s' % type(e).__name__, 'FK raised', {'geometry': g, 'mode': mode}, repr(e)[:200])
         if n_ < 2:
             res.sample({'geometry': g, 'mode': mode, 'neutral_height': h})
     if driver_ok and lines:
